@@ -67,10 +67,11 @@ def handle (op : String) (j : Json) : Option (Except String Json) :=
       let cprev ← getCSeats j "cprev"
       let app ← getNatMap j "app"
       let cev := byConstituencyFixed ev app
+      let aev ← evalByName (← j.getObjValAs? String "alloc")
       let adjJ := exceptJson natJson (levelOverhangCty cev ev fuel cv n cprev)
       let resJ :=
-        if wrap = "multistage" then exceptJson ndistJson (multistageDE cprev cev ev fuel fev fev cv n)
-        else exceptJson ndistJson (adjustedByParty cev ev fuel fev fev cv n cprev)
+        if wrap = "multistage" then exceptJson ndistJson (multistageDE cprev cev ev fuel fev aev cv n)
+        else exceptJson ndistJson (adjustedByParty cev ev fuel fev aev cv n cprev)
       pure (Json.mkObj [("adj", adjJ), ("result", resJ)])
     else
       let votes ← getVotes j "votes"
